@@ -751,6 +751,40 @@ fn gen_bindrow(rng: &mut Rng, thorough: bool, emit: &mut dyn FnMut(String)) {
     for cols in &vars {
         emit(format!("bindrow tup3 | {} | {}", cols_str(cols), t3));
     }
+    // by-name rows against marker lists that REPEAT a name (`… a = :v AND b = :v`): twice / three times, with and
+    // without a field / key that no marker takes (the count of serialized COLUMNS then reaches the number of fields
+    // although a field was never visited), for derived structs and for maps alike
+    {
+        let a = ("a".to_owned(), int.clone());
+        let b = ("b".to_owned(), text.clone());
+        let c = ("c".to_owned(), li.clone());
+        let lists: Vec<Vec<(String, Ty)>> = vec![
+            vec![a.clone(), b.clone()], vec![b.clone(), a.clone()], vec![a.clone(), a.clone()], vec![b.clone(), b.clone()],
+            vec![a.clone(), a.clone(), b.clone()], vec![a.clone(), b.clone(), b.clone(), b.clone()], vec![a.clone(), a.clone(), a.clone()],
+            vec![b.clone(), a.clone(), b.clone()], vec![a.clone()], vec![], vec![a.clone(), b.clone(), c.clone()],
+            vec![c.clone(), b.clone(), a.clone()], vec![a.clone(), b.clone(), c.clone(), c.clone()], vec![c.clone(), c.clone(), a.clone()],
+            vec![a.clone(), a.clone(), b.clone(), b.clone()], vec![a.clone(), b.clone(), a.clone()], vec![a.clone(), a.clone(), c.clone()],
+            vec![b.clone(), b.clone(), b.clone()], vec![a.clone(), b.clone(), ("d".to_owned(), int.clone())], vec![a.clone(), a.clone(), ("d".to_owned(), int.clone())],
+        ];
+        let map2 = format!("a {} ; b {}", val(0, 0), val(1, 0));
+        let map3 = format!("{} ; zz {}", map2, val(0, 0));
+        for cols in &lists {
+            emit(format!("bindrow struct2 | {} | {}", cols_str(cols), struct_shapes(2)));
+            emit(format!("bindrow struct3 | {} | {}", cols_str(cols), struct_shapes(3)));
+            emit(format!("bindrow map | {} | {}", cols_str(cols), map2));
+            emit(format!("bindrow map | {} | {}", cols_str(cols), map3));
+            // one marker's type mutated
+            if !cols.is_empty() {
+                let i = rng.below(cols.len() as u64) as usize;
+                for m in mutations(&cols[i].1).into_iter().take(if thorough { 6 } else { 2 }) {
+                    let mut cc = cols.clone();
+                    cc[i].1 = m;
+                    emit(format!("bindrow struct2 | {} | {}", cols_str(&cc), struct_shapes(2)));
+                    emit(format!("bindrow struct3 | {} | {}", cols_str(&cc), struct_shapes(3)));
+                }
+            }
+        }
+    }
     // the other arities and the two empty row types
     let t1 = format!("x {}", 42i32.shape(false));
     let t2 = format!("x {} ; x {}", 42i32.shape(false), "abc".to_owned().shape(false));
